@@ -306,6 +306,9 @@ def ghost_arg_table(ann):
     return {k: v for k, v in table.items() if v}
 
 
+UNIT_DEFAULTS = {}  # filled by the unit builder from `//@ghost_default <callee> <n exec args> : <ghost args>` lines of the templates: what a call that
+                    # a change added or moved is given when the call sites of the template disagree (the default must make the callee's
+                    # precondition an obligation, never discharge it)
 UNIT_TABLE = {}     # filled by the unit builder: ghost-argument table of all templates of the unit (fallback for callees the function did not call before)
 
 
@@ -337,6 +340,9 @@ def complete_ghost_args(ann, merged):
     except ValueError:
         pass
     table = {k: v for k, v in table.items() if all(len(a) == 4 and a[2] in declared for a in v)}
+    for (name, n), g in UNIT_DEFAULTS.items():
+        if ("*", name, n) not in table and all(a[0] != "Tracked" or (len(a) == 4 and a[2] in declared) for a in g):
+            table[("*", name, n)] = g
     if not table:
         return merged, 0
     edits = []
